@@ -24,6 +24,8 @@ impl<W> DistanceMatrix<W> {
     @fn_start
         proof {
             assert(index.0 * self.order >= 0) by (nonlinear_arith) requires index.0 >= 0, self.order >= 0;
+            // the cell number may be written with the product either way round
+            assert(index.0 * self.order == self.order * index.0) by (nonlinear_arith);
         }
     @*/
 
@@ -41,6 +43,8 @@ impl<W> DistanceMatrix<W> {
     @fn_start
         proof {
             assert(index.0 * self.order >= 0) by (nonlinear_arith) requires index.0 >= 0, self.order >= 0;
+            // the cell number may be written with the product either way round
+            assert(index.0 * self.order == self.order * index.0) by (nonlinear_arith);
         }
     @*/
 }
